@@ -183,3 +183,12 @@ Example error_meta_fallback :
     (toy_request "GET" "/t/1" ok_accept BNone) =
   Resp 500 media_type (WDoc (Some version_1_1) WAbsent [b "500"] []) None.
 Proof. vm_compute. reflexivity. Qed.
+
+(** NewSchema: an accepted and three refused definitions *)
+Example new_schema_examples :
+  new_schema_ok [ {| td_name := b "things"; td_attrs := [(b "title", true)]; td_rels := [(b "author", RKLib true); (b "x-y_9", RKCustom)] |} ] = true /\
+  new_schema_ok [ {| td_name := b "things"; td_attrs := [(b "id", true)]; td_rels := [] |} ] = false /\
+  new_schema_ok [ {| td_name := b "things"; td_attrs := [(b "a", true)]; td_rels := [(b "a", RKCustom)] |} ] = false /\
+  new_schema_ok [ {| td_name := b "things"; td_attrs := []; td_rels := [(b "r", RKLib false)] |} ] = false /\
+  new_schema_ok [ {| td_name := b "a-"; td_attrs := []; td_rels := [] |} ] = false.
+Proof. vm_compute. repeat split. Qed.
